@@ -54,6 +54,7 @@ from vgi_rpc.rpc._common import (
     HookToken,
     _current_body_precompressed,
     _current_call_stats,
+    _current_request_batch,
     _current_request_metadata,
     _current_response_codec,
     _current_stream_id,
@@ -492,6 +493,11 @@ def _run_stream_exchange_sync(
     """
     stats = CallStatistics()
     stats_token = _current_call_stats.set(stats)
+    # The transport captured this POST's body for the access log's
+    # ``request_data``.  That field belongs to unary and stream-init records
+    # only: a continuation record carries none (docs/access-log-spec.md), and
+    # this body is an exchange input batch or tick, not a request.
+    _current_request_batch.set(None)
     try:
         state_info = app._state_types.get(method_name)
         if state_info is None:
